@@ -3,6 +3,7 @@ pub mod codec;
 pub mod cp437;
 pub mod engine;
 pub mod evidence;
+pub mod fromval;
 pub mod gen;
 pub mod layout;
 pub mod prng;
